@@ -190,6 +190,7 @@ def expr_apis():
         ('refactor_reference', lambda t: refactor_reference(t, 'A')), ('replace_this_with_var', lambda t: replace_this_with_var(t, 'A')),
         ('replace_var_with_this', lambda t: replace_var_with_this(t, 'A')), ('type_check_references', lambda t: t.type_check_references(sc, {'A': sc})),
         ('replace_self_reference', lambda t: t.replace_self_reference(gen.build(('var', 'Z')))),
+        ('all-public-queries', touch_all_public),
     ]
     return A
 
@@ -205,7 +206,29 @@ def pred_apis():
         ('replace_this_with_var', lambda t: replace_this_with_var(t, 'A')), ('replace_var_with_this', lambda t: replace_var_with_this(t, 'A')),
         ('type_check_references', lambda t: t.type_check_references(sc, {'A': sc})), ('check_some_self_references', lambda t: t.check_some_self_references()),
         ('is_fully_typed', lambda t: t.is_fully_typed()), ('but()', lambda t: t.but()), ('but(expression=same)', lambda t: t.but(expression=t.expression)),
+        ('external_references', lambda t: t.external_references()), ('contains_reference', lambda t: t.contains_reference('A')), ('all-public-queries', touch_all_public),
     ]
+
+
+def touch_all_public(node):
+    """read every public attribute/property and call every public method that needs no argument: all of them are queries"""
+    import inspect
+    for name in dir(type(node)):
+        if name.startswith('_') or name in ('but',):
+            continue
+        try:
+            attr = getattr(node, name)
+        except Exception:
+            continue
+        if callable(attr):
+            try:
+                sig = inspect.signature(attr)
+                if all(p.default is not inspect.Parameter.empty or p.kind in (p.VAR_POSITIONAL, p.VAR_KEYWORD) for p in sig.parameters.values()):
+                    r = attr()
+                    if inspect.isgenerator(r) or hasattr(r, '__next__'):
+                        list(r)
+            except Exception:
+                pass
 
 
 def call(api, target) -> Optional[BaseException]:
@@ -356,6 +379,48 @@ def but_contract(ck: Check, specs):
     ck.engine('but-contract', nodes=n, violations=bad)
 
 
+def quantifier_but_part(ck: Check):
+    """copy-with-changes of a quantifier: the untouched condition subtree is shared with the original and must not be narrowed"""
+    from hpl.rewrite import replace_var_with_this
+    bad = 0
+    n = 0
+    cases = [(('q', 'forall', 'v', ('f', 'xs'), ('bin', '=', ('var', 'v'), ('f', 'z'))), ('set', ('lit', 1), ('lit', 2))),
+             (('q', 'exists', 'v', ('set', ('var', 'y'), ('lit', 1)), ('bin', '=', ('var', 'v'), ('f', 'z'))), ('set', ('lit', 5), ('lit', 1))),
+             (('q', 'forall', 'v', ('set', ('f', 'a'), ('f', 'b')), ('bin', 'in', ('var', 'v'), ('f', 'ws'))), ('range', ('lit', 0), ('lit', 3), False, False)),
+             (('q', 'forall', 'v', ('f', 'xs'), ('bin', '!=', ('var', 'v'), ('fa', ('var', 'A'), 'w'))), ('set', ('str', 'a'))),
+             (('q', 'forall', 'v', ('f', 'xs'), ('bin', 'or', ('var', 'v'), ('f', 'p'))), ('f', 'ps'))]
+    for qspec, newdom in cases:
+        for wrap in (lambda s_: s_, lambda s_: ('bin', 'and', s_, ('f', 'p')), lambda s_: ('not', s_)):
+            root = gen.build(wrap(qspec))
+            quant = [x for x in nodes_of(root) if type(x).__name__ == 'HplQuantifier'][0]
+            before = snapshot(root)
+            n += 1
+            try:
+                quant.but(domain=gen.build(newdom))
+            except Exception:
+                pass
+            d = diff(before, snapshot(root))
+            if d:
+                bad += 1
+                ck.counterexample(f'mutates:but(domain=...):{type(quant).__name__}', f'but(domain={gen.render(newdom)}) on the quantifier of «{root}» changed the original tree: {d}', {'kind': 'qbut', 'text': str(root)})
+    # variable replaced inside a domain only
+    for spec in (('q', 'forall', 'v', ('set', ('var', 'y'), ('lit', 1)), ('bin', '=', ('var', 'v'), ('f', 'z'))),):
+        from hpl.ast.predicates import HplPredicateExpression
+        root = HplPredicateExpression(gen.build(spec))
+        before = snapshot(root)
+        n += 1
+        try:
+            root.replace_var_reference('y', gen.build(('lit', 5)))
+        except Exception:
+            pass
+        d = diff(before, snapshot(root))
+        if d:
+            bad += 1
+            ck.counterexample('mutates:replace_var_reference:quantifier-domain', f'replace_var_reference on «{root}» changed the original tree: {d}', {'kind': 'qbut', 'text': str(root)})
+    ck.obligation(bad == 0)
+    ck.engine('quantifier-copies', cases=n, violations=bad)
+
+
 def property_part(ck: Check):
     """property-level calls: canonical_form, type_check_references, str, but on the C11 grid"""
     from hpl.rewrite import canonical_form
@@ -368,8 +433,12 @@ def property_part(ck: Check):
             spec = c11_sx.mk(si, pi, *w, deco, 0.5, 'T')
             if props.property_verdict(spec) is not None:
                 continue
+            def all_nodes_public(p):
+                for nd in nodes_of(p):
+                    touch_all_public(nd)
             for name, api in (('canonical_form', canonical_form), ('str', str), ('type_check_references', lambda p: p.type_check_references(topics)),
-                              ('but(pattern=same)', lambda p: p.but(pattern=p.pattern)), ('is_fully_typed', lambda p: p.is_fully_typed()), ('hash', hash)):
+                              ('but(pattern=same)', lambda p: p.but(pattern=p.pattern)), ('is_fully_typed', lambda p: p.is_fully_typed()), ('hash', hash),
+                              ('all-public-queries-on-every-node', all_nodes_public), ('uid', lambda p: p.uid), ('events', lambda p: list(p.events()))):
                 prop = props.build_property(spec)
                 before = snapshot(prop)
                 call(api, prop)
@@ -413,6 +482,7 @@ def main() -> int:
             ck.counterexample(sig, what, {'kind': 'snapshot', 'spec': item[0], 'as_predicate': item[1], 'api': api, 'text': text})
     ck.engine('snapshots', trees=len(items), api_calls=calls, wall_s=round(time.time() - t0, 1))
     but_contract(ck, specs[:: (6 if ck.tier == 'quick' else 2)])
+    quantifier_but_part(ck)
     property_part(ck)
     ck.sample({'tree': gen.render(specs[3]), 'apis': [a for a, _ in expr_apis()]})
     ck.sample({'tree': gen.render(specs[len(specs) // 2])})
